@@ -1,4 +1,4 @@
-import Parser
+import Parser  -- = notes/probe_parser_model.lean
 open Vy
 
 /-- what `_get_branches` does on one token, as a state machine.
